@@ -13,3 +13,7 @@ mod c01_window;
 mod c14_detectors;
 #[cfg(kani)]
 mod c16_action;
+#[cfg(kani)]
+mod c17_convert;
+#[cfg(kani)]
+mod c18_candles;
